@@ -1349,6 +1349,10 @@ func (v *FnVC) baseEnv() *Env {
 		// captured variables are pointers to the cell; expose by name as the cell content
 		env.vars["&"+fv.Name()] = v.vals[fv]
 	}
+	// fresh(x) in the function's own invariants / assertions: x was allocated since the function was entered
+	if v.entry != nil && v.entry.alloc != "" {
+		env.vars["$allocPre"] = intT(v.entry.alloc)
+	}
 	return env
 }
 
